@@ -39,6 +39,9 @@ type NormalEstimator struct {
   sum_g     []float64
   sum_m   [][]float64
   sum_s [][][]float64
+  // largest log-weight (relative to gamma_max) seen by each thread; the
+  // sums of that thread are relative to it
+  sum_r     []float64
   gamma_max float64
 }
 
@@ -91,8 +94,10 @@ func (obj *NormalEstimator) Initialize(p ThreadPool) error {
   obj.sum_g = make(    []float64, p.NumberOfThreads())
   obj.sum_m = make(  [][]float64, p.NumberOfThreads())
   obj.sum_s = make([][][]float64, p.NumberOfThreads())
+  obj.sum_r = make(    []float64, p.NumberOfThreads())
   for i := 0; i < p.NumberOfThreads(); i++ {
     obj.sum_g[i] = 0.0
+    obj.sum_r[i] = math.Inf(-1)
     obj.sum_m[i] = make(  []float64, obj.n)
     obj.sum_s[i] = make([][]float64, obj.n)
     for j := 0; j < obj.n; j++ {
@@ -108,18 +113,30 @@ func (obj *NormalEstimator) NewObservation(x ConstVector, gamma ConstScalar, p T
     return fmt.Errorf("x has invalid dimension (expected dimension `%d' but data has dimension `%d')", obj.n, x.Dim())
   }
   id := p.GetThreadId()
-  if gamma == nil {
-    obj.sum_g[id] += 1.0
+  // log-weight of this observation (no weight is weight one)
+  r := 0.0
+  if gamma != nil {
+    r = gamma.GetFloat64() - obj.gamma_max
+  }
+  if math.IsInf(r, -1) {
+    // weight zero
+    return nil
+  }
+  // the largest log-weight is not known in advance when observations
+  // arrive one by one: keep the sums relative to the largest one seen so far
+  if r > obj.sum_r[id] {
+    s := math.Exp(obj.sum_r[id] - r)
+    obj.sum_g[id] *= s
     for i := 0; i < obj.n; i++ {
-      xi := x.ConstAt(i).GetFloat64()
-      obj.sum_m[id][i] += xi
+      obj.sum_m[id][i] *= s
       for j := 0; j < obj.n; j++ {
-        xj := x.ConstAt(j).GetFloat64()
-        obj.sum_s[id][i][j] += xi*xj
+        obj.sum_s[id][i][j] *= s
       }
     }
-  } else {
-    g := math.Exp(gamma.GetFloat64() - obj.gamma_max)
+    obj.sum_r[id] = r
+  }
+  {
+    g := math.Exp(r - obj.sum_r[id])
     obj.sum_g[id] += g
     for i := 0; i < obj.n; i++ {
       xi := x.ConstAt(i).GetFloat64()
@@ -137,15 +154,28 @@ func (obj *NormalEstimator) NewObservation(x ConstVector, gamma ConstScalar, p T
  * -------------------------------------------------------------------------- */
 
 func (obj *NormalEstimator) estimateParameters() (Vector, Matrix, int) {
-  sum_g := obj.sum_g[0]
-  sum_m := obj.sum_m[0]
-  sum_s := obj.sum_s[0]
-  for k := 1; k < len(obj.sum_m); k++ {
-    sum_g += obj.sum_g[k]
+  // bring the sums of all threads to a common scale
+  sum_r := math.Inf(-1)
+  for k := 0; k < len(obj.sum_r); k++ {
+    sum_r = math.Max(sum_r, obj.sum_r[k])
+  }
+  sum_g := 0.0
+  sum_m := make(  []float64, obj.n)
+  sum_s := make([][]float64, obj.n)
+  for i := 0; i < obj.n; i++ {
+    sum_s[i] = make([]float64, obj.n)
+  }
+  for k := 0; k < len(obj.sum_m); k++ {
+    if math.IsInf(obj.sum_r[k], -1) {
+      // this thread has not seen any observation
+      continue
+    }
+    s := math.Exp(obj.sum_r[k] - sum_r)
+    sum_g += s*obj.sum_g[k]
     for i := 0; i < obj.n; i++ {
-      sum_m[i] += obj.sum_m[k][i]
+      sum_m[i] += s*obj.sum_m[k][i]
       for j := 0; j < obj.n; j++ {
-        sum_s[i][j] += obj.sum_s[k][i][j]
+        sum_s[i][j] += s*obj.sum_s[k][i][j]
       }
     }
   }
@@ -163,6 +193,7 @@ func (obj *NormalEstimator) estimateParameters() (Vector, Matrix, int) {
   obj.sum_g = nil
   obj.sum_m = nil
   obj.sum_s = nil
+  obj.sum_r = nil
   return mu, si, int(math.Round(sum_g))
 }
 
@@ -191,6 +222,10 @@ func (obj *NormalEstimator) Estimate(gamma ConstVector, p ThreadPool) error {
       if g := gamma.ConstAt(i).GetFloat64(); obj.gamma_max < g {
         obj.gamma_max = g
       }
+    }
+    // the largest log-weight is known: no rescaling required
+    for i := 0; i < len(obj.sum_r); i++ {
+      obj.sum_r[i] = 0.0
     }
   }
   // compute sigma
